@@ -2,6 +2,7 @@ import TFV.Properties.Adapt
 import TFV.Properties.Src.ShadeParams
 import TFV.Properties.Src.Greedy
 import TFV.Properties.Src.ShadeBook
+import TFV.Properties.Src.JdeParams
 #print axioms TFV.Adapt.C15_randc01_range
 #print axioms TFV.Adapt.C15_randc01_progress
 #print axioms TFV.Adapt.C15_randn01_range
@@ -22,3 +23,6 @@ import TFV.Properties.Src.ShadeBook
 #print axioms TFV.SrcTie.C15_src_jde_greedy
 #print axioms TFV.SrcTie.C15_src_shade_bookkeeping
 #print axioms TFV.SrcTie.C15_src_shaga_bookkeeping
+#print axioms TFV.Properties.Src.JdeParams.C15_src_jde_mutate_F
+#print axioms TFV.Properties.Src.JdeParams.C15_src_jde_mutate_F_range
+#print axioms TFV.Properties.Src.JdeParams.C15_src_jde_mutate_CR
